@@ -100,3 +100,11 @@ func minInt(a, b int) int {
 	}
 	return b
 }
+
+func hash64s(s string) uint64 {
+	h := uint64(1469598103934665603)
+	for i := 0; i < len(s); i++ {
+		h = (h ^ uint64(s[i])) * 1099511628211
+	}
+	return h
+}
